@@ -501,6 +501,10 @@ def _write_external_data(
             os.rmdir(temporary_dir)
 
     for tensor in overwritten_tensors:
+        if not _paths_refer_to_same_file(tensor.path, destination_path):
+            # The tensor reads the old file through another hard link: its path still
+            # names the old inode with the old contents, so it remains valid.
+            continue
         tensor.invalidate()
         logger.warning(
             "External tensor %s referred to the overwritten destination and has "
